@@ -230,6 +230,17 @@ def work(spec):
                 rc, out, err = run_native(exe, rp)
                 mm = compare_trace(tr, out, rc, spec['mode'])
                 r['diff']['runs'] += 1
+                nat_fail = [l for l in out.splitlines() if l.startswith('ASSERT-FAIL')]
+                if nat_fail and 'ASSUME-FALSE' not in out and spec['mode'] == 'BITS':
+                    # the g++ build breaks the harness assertion on an input on which the clang IR satisfies it: compiler-dependent
+                    # behaviour of the code under check (evaluation order, ...). Concrete and reproduced on the real build: a violation.
+                    site = int(nat_fail[0].split('=')[1].split()[0])
+                    r['failures'].append({'kind': 'NATIVE-DIVERGENCE', 'site': site,
+                                          'what': f'the g++ build fails assertion site {site} on a path model the clang IR satisfies (compiler-dependent behaviour)',
+                                          'inputs': tr['inputs'], 'ufs': tr['ufs'], 'where': None})
+                    r['n_failures'] += 1
+                    r['verdict'] = 'fail'
+                    continue
                 if mm:
                     r['diff']['mismatches'].append({'trace': k, 'why': mm, 'inputs': tr['inputs'][:8]})
             if r['diff']['mismatches']:
@@ -347,6 +358,12 @@ def replay_failure(fe, res, f, outdir):
             return False, rp, 'native build failed: ' + first_error(d)
         rc, out, err = run_native(exe, rp, timeout=20)
         return (rc == -999), rp, f'[rel] native run {"did not finish within 20 s" if rc == -999 else "finished rc=%d" % rc} ' + out[-200:].replace('\n', ' / ')
+    if kind == 'NATIVE-DIVERGENCE':
+        exe, d = fe.native(spec['harness'], spec['inst'], tuple(NATIVE_FLAGS['dbg' if dbgflav else 'rel']) + tuple(spec.get('extra', ())), spec.get('defs', ()), tag='rrel')
+        if exe is None:
+            return False, rp, 'native build failed: ' + first_error(d)
+        rc, out, err = run_native(exe, rp)
+        return (f'ASSERT-FAIL site={f.get("site")}' in out), rp, f'[g++] rc={rc} ' + out[-300:].replace('\n', ' / ')
     if kind == 'PRECISION-LOSS':
         exe, d = fe.native(spec['harness'], spec['inst'], tuple(NATIVE_FLAGS['rel']) + tuple(spec.get('extra', ())), spec.get('defs', ()), tag='rrel')
         if exe is None:
